@@ -213,7 +213,7 @@ Proof.
 Qed.
 
 Lemma attacked_by_nonempty (r:pos) (c:color) (t:N) : attacked_by r c t = nonempty (attackers r c t).
-Proof. reflexivity. Qed.
+Proof. unfold attacked_by, nonempty. reflexivity. Qed.
 
 Lemma attacked_by_m (c:color) (t:N) : attacked_by q (κ c) (φ t) = attacked_by p c t.
 Proof. rewrite !attacked_by_nonempty. eapply nonempty_perm_map, attackers_m. Qed.
@@ -311,5 +311,486 @@ Proof.
     intros [o d]. cbn [fst snd]. apply pin_step_m, Hk.
 Qed.
 
+(** ** pseudo-legal moves *)
+Lemma promos_m (s d:N) : promos (φ s) (φ d) = map φm (promos s d).
+Proof. reflexivity. Qed.
+
+Lemma pawn_to_m (c:color) (s d:N) : d < 64 -> pawn_to (κ c) (φ s) (φ d) = map φm (pawn_to c s d).
+Proof.
+  intro Hd. unfold pawn_to. rewrite phi_last by exact Hd.
+  destruct (rank_of d =? last_rank c); reflexivity.
+Qed.
+
+Definition pawn_push (r:pos) (c:color) (s:N) : list move :=
+  match step s (0,fwdc c)%Z with
+  | Some d1 => if occ r d1 then [] else
+      pawn_to c s d1 ++
+      (if rank_of s =? start_rank c then
+         match step d1 (0,fwdc c)%Z with
+         | Some d2 => if occ r d2 then [] else [mv s d2] | None => [] end else [])
+  | None => [] end.
+Definition pawn_cap1 (r:pos) (c:color) (s d:N) : list move :=
+  if enemy r c d then pawn_to c s d
+  else match ep r with Some e => if e =? d then [mv s d] else [] | None => [] end.
+Lemma pawn_moves_unfold (r:pos) (c:color) (s:N) :
+  pawn_moves r c s = pawn_push r c s ++ flat_map (pawn_cap1 r c s) (steps s (pawn_caps c)).
+Proof. reflexivity. Qed.
+
+Lemma pawn_push_m (c:color) (s:N) : s < 64 ->
+  pawn_push q (κ c) (φ s) = map φm (pawn_push p c s).
+Proof.
+  intro Hs. unfold pawn_push. rewrite <- del_fwd, phi_step by exact Hs.
+  destruct (step s (0,fwdc c)%Z) as [d1|] eqn:E1; cbn [option_map map]; [|reflexivity].
+  assert (d1 < 64) as Hd1 by (eapply step_lt, E1).
+  rewrite occ_m. destruct (occ p d1); [reflexivity|].
+  rewrite map_app, pawn_to_m by exact Hd1. f_equal.
+  rewrite phi_start by exact Hs. destruct (rank_of s =? start_rank c); [|reflexivity].
+  rewrite phi_step by exact Hd1.
+  destruct (step d1 (0,fwdc c)%Z) as [d2|]; cbn [option_map map]; [|reflexivity].
+  rewrite occ_m. destruct (occ p d2); reflexivity.
+Qed.
+
+Lemma pawn_cap1_m (c:color) (s d:N) : d < 64 ->
+  pawn_cap1 q (κ c) (φ s) (φ d) = map φm (pawn_cap1 p c s d).
+Proof.
+  intro Hd. unfold pawn_cap1. rewrite enemy_m. destruct (enemy p c d); [apply pawn_to_m, Hd|].
+  rewrite (r_ep _ _ R). destruct (ep p) as [e|]; cbn [option_map]; [|reflexivity].
+  rewrite phi_eqb. destruct (e =? d); reflexivity.
+Qed.
+
+Lemma pawn_moves_m (c:color) (s:N) : s < 64 ->
+  Permutation (pawn_moves q (κ c) (φ s)) (map φm (pawn_moves p c s)).
+Proof.
+  intro Hs. rewrite !pawn_moves_unfold, map_app. apply Permutation_app.
+  - rewrite pawn_push_m by exact Hs. apply Permutation_refl.
+  - eapply Permutation_trans.
+    + apply Permutation_flat_map_l. apply (steps_perm s (pawn_caps c)); [exact Hs|apply del_caps].
+    + rewrite flat_map_map, map_flat_map.
+      rewrite (flat_map_ext_in (fun x => pawn_cap1 q (κ c) (φ s) (φ x))
+                               (fun x => map φm (pawn_cap1 p c s x))); [apply Permutation_refl|].
+      intros d Hd. apply pawn_cap1_m. eapply steps_lt, Hd.
+Qed.
+
+Lemma quiet_m (c:color) (s:N) : s < 64 ->
+  Permutation (map (mv (φ s)) (filter (fun d => negb (own q (κ c) d)) (attack_set q (φ s))))
+              (map φm (map (mv s) (filter (fun d => negb (own p c d)) (attack_set p s)))).
+Proof.
+  intro Hs. rewrite map_map.
+  change (fun x => φm (mv s x)) with (fun x => mv (φ s) (φ x)).
+  rewrite <- (map_map φ (mv (φ s))). apply Permutation_map.
+  rewrite (filter_ext (fun d => negb (own p c d)) (fun d => negb (own q (κ c) (φ d))))
+    by (intro a; rewrite own_m; reflexivity).
+  rewrite <- (filter_map_comm (fun d => negb (own q (κ c) d)) φ).
+  apply Permutation_filter, attack_set_m, Hs.
+Qed.
+
+Definition castle_part (r:pos) (s:N) : list move :=
+  if s =? home_rank (turn r) * 8 + 4 then castle_moves r (turn r) else [].
+Definition CastleRel : Prop :=
+  forall s, s < 64 -> Permutation (castle_part q (φ s)) (map φm (castle_part p s)).
+
+Lemma pseudo_from_m (s:N) : s < 64 -> CastleRel ->
+  Permutation (pseudo_from q (φ s)) (map φm (pseudo_from p s)).
+Proof.
+  intros Hs HC. unfold pseudo_from. rewrite (r_at _ _ R).
+  destruct (at_ p s) as [[t c']|]; cbn [pcmap map]; [|constructor].
+  rewrite (r_turn _ _ R), kap_eqb. destruct (color_eqb (turn p) c'); cbn [map]; [|constructor].
+  destruct t; try (apply quiet_m, Hs).
+  - apply pawn_moves_m, Hs.
+  - rewrite map_app. apply Permutation_app; [apply quiet_m, Hs|].
+    specialize (HC s Hs). unfold castle_part in HC. rewrite (r_turn _ _ R) in HC. exact HC.
+Qed.
+
+Lemma pseudo_m : CastleRel -> Permutation (pseudo q) (map φm (pseudo p)).
+Proof.
+  intro HC. unfold pseudo. eapply Permutation_trans; [apply flat_map_phi_all_sq|].
+  rewrite map_flat_map. apply Permutation_flat_map_pw. intros s Hs.
+  apply pseudo_from_m; [apply in_all_sq, Hs|exact HC].
+Qed.
+
 End WithRel.
 End Generic.
+
+(** ** The successor position, square by square *)
+Definition apply_at (p:pos) (m:move) (s:N) : option (ptype*color) :=
+  let c := turn p in
+  let piece := match at_ p (src m) with Some (t,_) => t | None => Pawn end in
+  let placed := match promo m with Some t => t | None => piece end in
+  let b1 := if dst m =? s then Some (placed,c) else if src m =? s then None else at_ p s in
+  let b2 := if is_ep p m && (rank_of (src m) * 8 + file_of (dst m) =? s) then None else b1 in
+  if is_castle p m then
+    let r := rank_of (src m) in
+    if file_of (dst m) =? 6
+    then (if r*8+5 =? s then Some (Rook,c) else if r*8+7 =? s then None else b2)
+    else (if r*8+3 =? s then Some (Rook,c) else if r*8 =? s then None else b2)
+  else b2.
+
+Lemma apply_length (p:pos) (m:move) :
+  length (placement (apply p m)) = length (placement p).
+Proof.
+  unfold apply. cbv zeta. cbn [placement].
+  destruct (is_castle p m); [destruct (file_of (dst m) =? 6)|];
+    (destruct (is_ep p m); rewrite ?updN_length; reflexivity).
+Qed.
+
+Lemma at_apply (p:pos) (m:move) (s:N) :
+  length (placement p) = 64%nat -> src m < 64 -> dst m < 64 ->
+  at_ (apply p m) s = apply_at p m s.
+Proof.
+  intros Hl Hs Hd. destruct (rank_file_lt _ Hs) as [Hr _]. destruct (rank_file_lt _ Hd) as [_ Hf].
+  unfold at_, apply, apply_at. cbv zeta. cbn [placement].
+  assert (forall k, k < 8 -> (N.to_nat (rank_of (src m) * 8 + k) < 64)%nat) as Hk by (intros; lia).
+  assert (N.to_nat (src m) < 64)%nat as Hs' by lia.
+  assert (N.to_nat (dst m) < 64)%nat as Hd' by lia.
+  assert (N.to_nat (rank_of (src m) * 8) < 64)%nat as Hk0 by lia.
+  destruct (is_castle p m); [destruct (file_of (dst m) =? 6)|];
+    destruct (is_ep p m); cbn [andb];
+    repeat (rewrite nth_updN by (rewrite ?updN_length, Hl; first [assumption | apply Hk; lia]));
+    reflexivity.
+Qed.
+
+Lemma turn_apply (p:pos) (m:move) : turn (apply p m) = opp (turn p).
+Proof. reflexivity. Qed.
+
+Definition side_pawn (p:pos) (c:color) (t:N) (d:Z*Z) : bool :=
+  match step t d with Some x => has p x Pawn c | None => false end.
+Lemma ep_apply (p:pos) (m:move) :
+  ep (apply p m) =
+  if is_double p m then
+    if existsb (side_pawn p (opp (turn p)) (dst m)) side_dirs
+    then Some (((rank_of (src m) + rank_of (dst m)) / 2) * 8 + file_of (src m)) else None
+  else None.
+Proof. reflexivity. Qed.
+
+Lemma apply_at_cases (p:pos) (m:move) (s:N) :
+  apply_at p m s = None \/ apply_at p m s = Some (Rook, turn p) \/
+  (dst m = s /\ apply_at p m s =
+     Some (match promo m with Some t => t | None =>
+             match at_ p (src m) with Some (t,_) => t | None => Pawn end end, turn p)) \/
+  (dst m <> s /\ src m <> s /\ apply_at p m s = at_ p s).
+Proof.
+  unfold apply_at. cbv zeta.
+  assert (forall (b:bool) (x:option (ptype*color)), (if b then None else x) = None \/ (if b then None else x) = x) as Hb
+    by (intros [] x; auto).
+  set (b1 := if dst m =? s then _ else _).
+  assert (b1 = None \/ b1 = Some (Rook, turn p) \/
+          (dst m = s /\ b1 = Some (match promo m with Some t => t | None =>
+             match at_ p (src m) with Some (t,_) => t | None => Pawn end end, turn p)) \/
+          (dst m <> s /\ src m <> s /\ b1 = at_ p s)) as H1.
+  { subst b1. destruct (N.eqb_spec (dst m) s) as [Hd|Hd]; [right; right; left; split; [exact Hd|reflexivity]|].
+    destruct (N.eqb_spec (src m) s) as [Hs|Hs]; [left; reflexivity|].
+    right; right; right. repeat split; assumption. }
+  set (b2 := if is_ep p m && _ then None else b1).
+  assert (b2 = None \/ b2 = b1) as H2 by apply Hb.
+  assert (b2 = None \/ b2 = Some (Rook, turn p) \/
+          (dst m = s /\ b2 = Some (match promo m with Some t => t | None =>
+             match at_ p (src m) with Some (t,_) => t | None => Pawn end end, turn p)) \/
+          (dst m <> s /\ src m <> s /\ b2 = at_ p s)) as H3.
+  { destruct H2 as [H2|H2]; [auto|]. rewrite H2. exact H1. }
+  clearbody b2. clear H1 H2 b1.
+  destruct (is_castle p m); [|exact H3].
+  destruct (file_of (dst m) =? 6).
+  - destruct (_ =? s); [auto|]. destruct (_ =? s); [auto|exact H3].
+  - destruct (_ =? s); [auto|]. destruct (_ =? s); [auto|exact H3].
+Qed.
+
+(** a king of colour [c'] after the move: the moved king, or an unmoved one *)
+Lemma king_after (p:pos) (m:move) (s:N) (c':color) :
+  length (placement p) = 64%nat -> src m < 64 -> dst m < 64 ->
+  own p (turn p) (src m) = true -> promo m <> Some King ->
+  has (apply p m) s King c' = true ->
+  (s = dst m /\ has p (src m) King c' = true) \/ (s <> src m /\ s <> dst m /\ has p s King c' = true).
+Proof.
+  intros Hl Hs Hd Hown Hpr. unfold has at 1. rewrite at_apply by assumption.
+  destruct (apply_at_cases p m s) as [H|[H|[[Hds H]|[Hds [Hss H]]]]]; rewrite H.
+  - discriminate.
+  - cbn [ptype_eqb andb]. discriminate.
+  - intro Hk. left. split; [symmetry; exact Hds|].
+    unfold own, colour_at in Hown. unfold has.
+    destruct (at_ p (src m)) as [[t c0]|]; [|discriminate].
+    destruct (promo m) as [pr|].
+    + destruct pr; try discriminate. exfalso. apply Hpr. reflexivity.
+    + apply andb_prop in Hk. destruct Hk as [Hk1 Hk2]. rewrite Hk1. cbn [andb].
+      destruct c', c0, (turn p); try reflexivity; discriminate.
+  - intro Hk. right. repeat split; [congruence|congruence|]. unfold has. exact Hk.
+Qed.
+
+Lemma uniq_apply (p:pos) (m:move) :
+  uniq_king p -> length (placement p) = 64%nat -> src m < 64 -> dst m < 64 ->
+  own p (turn p) (src m) = true -> promo m <> Some King -> uniq_king (apply p m).
+Proof.
+  intros U Hl Hs Hd Hown Hpr c s t Hks Hkt.
+  apply king_after in Hks; try assumption. apply king_after in Hkt; try assumption.
+  destruct Hks as [[Es Hs1]|[Ns1 [Ns2 Hs1]]], Hkt as [[Et Ht1]|[Nt1 [Nt2 Ht1]]].
+  - congruence.
+  - exfalso. apply Nt1. apply (U c); assumption.
+  - exfalso. apply Ns1. apply (U c); assumption.
+  - apply (U c); assumption.
+Qed.
+
+(** ** facts about pseudo-legal moves *)
+Lemma pawn_to_facts (c:color) (s d:N) (m:move) :
+  In m (pawn_to c s d) -> src m = s /\ dst m = d /\ promo m <> Some King.
+Proof.
+  unfold pawn_to. destruct (rank_of d =? last_rank c); cbn [promos map In mv].
+  - intros [<-|[<-|[<-|[<-|[]]]]]; cbn [src dst promo]; repeat split; discriminate.
+  - intros [<-|[]]; cbn [src dst promo]; repeat split; discriminate.
+Qed.
+
+Lemma pawn_moves_facts (p:pos) (c:color) (s:N) (m:move) :
+  In m (pawn_moves p c s) -> src m = s /\ dst m < 64 /\ promo m <> Some King.
+Proof.
+  rewrite pawn_moves_unfold. intro H. apply in_app_or in H. destruct H as [H|H].
+  - unfold pawn_push in H. destruct (step s (0,fwdc c)%Z) as [d1|] eqn:E1; [|contradiction].
+    destruct (occ p d1); [contradiction|]. apply in_app_or in H. destruct H as [H|H].
+    + apply pawn_to_facts in H. destruct H as [H1 [H2 H3]]. rewrite H2.
+      repeat split; [exact H1|eapply step_lt, E1|exact H3].
+    + destruct (rank_of s =? start_rank c); [|contradiction].
+      destruct (step d1 (0,fwdc c)%Z) as [d2|] eqn:E2; [|contradiction].
+      destruct (occ p d2); [contradiction|]. destruct H as [<-|[]]. cbn [mv src dst promo].
+      repeat split; [eapply step_lt, E2|discriminate].
+  - apply in_flat_map in H. destruct H as [d [Hd H]]. apply steps_lt in Hd.
+    unfold pawn_cap1 in H. destruct (enemy p c d).
+    + apply pawn_to_facts in H. destruct H as [H1 [H2 H3]]. rewrite H2. auto.
+    + destruct (ep p) as [e|]; [|contradiction]. destruct (e =? d); [|contradiction].
+      destruct H as [<-|[]]. cbn [mv src dst promo]. repeat split; [exact Hd|discriminate].
+Qed.
+
+Lemma quiet_facts (p:pos) (c:color) (s:N) (m:move) :
+  In m (map (mv s) (filter (fun d => negb (own p c d)) (attack_set p s))) ->
+  src m = s /\ In (dst m) (attack_set p s) /\ promo m = None.
+Proof.
+  intro H. apply in_map_iff in H. destruct H as [d [<- Hd]]. apply filter_In in Hd.
+  cbn [mv src dst promo]. repeat split. apply Hd.
+Qed.
+
+Lemma castle_moves_facts (p:pos) (c:color) (m:move) :
+  In m (castle_moves p c) ->
+  src m = home_rank c * 8 + 4 /\ dst m < 64 /\ promo m = None.
+Proof.
+  unfold castle_moves. cbv zeta.
+  destruct (has p (home_rank c * 8 + 4) King c && _); [|contradiction].
+  intro H. apply in_app_or in H.
+  destruct H as [H|H]; match type of H with In _ (if ?b then _ else _) => destruct b end;
+    try contradiction; destruct H as [<-|[]]; cbn [mv src dst promo];
+    (repeat split; destruct c; cbn [home_rank]; lia).
+Qed.
+
+Lemma pseudo_from_facts (p:pos) (s:N) (m:move) :
+  In m (pseudo_from p s) ->
+  src m = s /\ dst m < 64 /\ own p (turn p) s = true /\ promo m <> Some King.
+Proof.
+  unfold pseudo_from. destruct (at_ p s) as [[t c']|] eqn:Ea; [|contradiction].
+  destruct (color_eqb (turn p) c') eqn:Ec; [|contradiction].
+  assert (own p (turn p) s = true) as Hown by (unfold own, colour_at; rewrite Ea; exact Ec).
+  assert (forall m, In m (map (mv s) (filter (fun d => negb (own p (turn p) d)) (attack_set p s))) ->
+            src m = s /\ dst m < 64 /\ own p (turn p) s = true /\ promo m <> Some King) as Hq.
+  { intros m0 H. apply quiet_facts in H. destruct H as [H1 [H2 H3]].
+    repeat split; [exact H1|eapply attack_set_lt, H2|exact Hown|rewrite H3; discriminate]. }
+  destruct t; try (apply Hq).
+  - intro H. apply pawn_moves_facts in H. destruct H as [H1 [H2 H3]]. auto.
+  - intro H. apply in_app_or in H. destruct H as [H|H]; [apply Hq, H|].
+    destruct (N.eqb_spec s (home_rank (turn p) * 8 + 4)) as [Es|_]; [|contradiction].
+    apply castle_moves_facts in H. destruct H as [H1 [H2 H3]].
+    repeat split; [congruence|exact H2|exact Hown|rewrite H3; discriminate].
+Qed.
+
+Lemma pseudo_facts (p:pos) (m:move) :
+  In m (pseudo p) ->
+  src m < 64 /\ dst m < 64 /\ own p (turn p) (src m) = true /\ promo m <> Some King.
+Proof.
+  unfold pseudo. intro H. apply in_flat_map in H. destruct H as [s [Hs H]].
+  apply pseudo_from_facts in H. destruct H as [H1 [H2 [H3 H4]]]. rewrite H1.
+  repeat split; try assumption. apply in_all_sq, Hs.
+Qed.
+
+Lemma pos_ext (a b:pos) :
+  placement a = placement b -> turn a = turn b -> wk a = wk b -> wq a = wq b ->
+  bk a = bk b -> bq a = bq b -> ep a = ep b -> a = b.
+Proof.
+  destruct a as [pl1 t1 a1 b1 c1 d1 e1], b as [pl2 t2 a2 b2 c2 d2 e2].
+  cbn [placement turn wk wq bk bq ep]. intros; subst; reflexivity.
+Qed.
+
+(** ** The successor of the image is the image of the successor; legal moves; status *)
+Section Generic2.
+Variable S : sym.
+Notation φ := (phi S).
+Notation κ := (kap (sw S)).
+Notation δ := (del S).
+Notation φm := (mmove (phi S)).
+Notation pcm := (pcmap (sw S)).
+
+Section WithRel2.
+Variables p q : pos.
+Hypothesis R : Rel S p q.
+
+Lemma is_ep_m (m:move) : src m < 64 -> dst m < 64 -> is_ep q (φm m) = is_ep p m.
+Proof.
+  intros Hs Hd. unfold is_ep. cbn [mmove src dst].
+  rewrite (r_turn _ _ _ R), (has_m S p q R), (phi_file_eq S), (occ_m S p q R) by assumption.
+  reflexivity.
+Qed.
+
+Lemma is_castle_m (m:move) : src m < 64 -> dst m < 64 -> is_castle q (φm m) = is_castle p m.
+Proof.
+  intros Hs Hd. unfold is_castle. cbn [mmove src dst].
+  rewrite (r_turn _ _ _ R), (has_m S p q R), (phi_fabs S) by assumption. reflexivity.
+Qed.
+
+Lemma is_double_m (m:move) : src m < 64 -> dst m < 64 -> is_double q (φm m) = is_double p m.
+Proof.
+  intros Hs Hd. unfold is_double. cbn [mmove src dst].
+  rewrite (r_turn _ _ _ R), (has_m S p q R), (phi_rabs S) by assumption. reflexivity.
+Qed.
+
+Lemma apply_at_m (m:move) (s:N) : src m < 64 -> dst m < 64 ->
+  (is_castle p m = false \/ castle_geom S) ->
+  apply_at q (φm m) (φ s) = pcm (apply_at p m s).
+Proof.
+  intros Hs Hd HC. unfold apply_at. cbv zeta.
+  rewrite is_castle_m, is_ep_m by assumption. cbn [mmove src dst promo].
+  rewrite !(phi_eqb S), (r_turn _ _ _ R), !(r_at _ _ _ R).
+  rewrite <- (phi_epsq S) by assumption. rewrite (phi_eqb S).
+  assert ((if dst m =? s
+           then Some (match promo m with Some t => t | None =>
+                        match pcm (at_ p (src m)) with Some (t,_) => t | None => Pawn end end, κ (turn p))
+           else if src m =? s then None else pcm (at_ p s))
+          = pcm (if dst m =? s
+                 then Some (match promo m with Some t => t | None =>
+                        match at_ p (src m) with Some (t,_) => t | None => Pawn end end, turn p)
+                 else if src m =? s then None else at_ p s)) as E1.
+  { destruct (dst m =? s).
+    - cbn [pcmap]. destruct (at_ p (src m)) as [[t c0]|]; reflexivity.
+    - destruct (src m =? s); reflexivity. }
+  rewrite E1. clear E1.
+  set (b1 := if dst m =? s then _ else _).
+  assert ((if is_ep p m && (rank_of (src m) * 8 + file_of (dst m) =? s) then None else pcm b1)
+          = pcm (if is_ep p m && (rank_of (src m) * 8 + file_of (dst m) =? s) then None else b1)) as E2
+    by (destruct (is_ep p m && _); reflexivity).
+  rewrite E2. clear E2.
+  set (b2 := if is_ep p m && _ then None else b1).
+  destruct (is_castle p m) eqn:Ec; [|reflexivity].
+  destruct HC as [HC|HC]; [discriminate|].
+  destruct (rank_file_lt _ Hs) as [Hr _].
+  assert (file_of (φ (dst m)) = file_of (dst m)) as Ef by (apply (HC (dst m) 0); lia).
+  rewrite Ef.
+  assert (forall k, k < 8 -> (rank_of (φ (src m)) * 8 + k =? φ s) = (rank_of (src m) * 8 + k =? s)) as Ek.
+  { intros k Hk. destruct (HC (src m) k Hs Hk) as [E _]. rewrite <- E. apply phi_eqb. }
+  assert ((rank_of (φ (src m)) * 8 =? φ s) = (rank_of (src m) * 8 =? s)) as Ek0.
+  { pose proof (Ek 0) as E. rewrite !N.add_0_r in E. apply E. lia. }
+  rewrite !Ek by lia. rewrite Ek0.
+  destruct (file_of (dst m) =? 6).
+  - destruct (rank_of (src m) * 8 + 5 =? s); [reflexivity|].
+    destruct (rank_of (src m) * 8 + 7 =? s); reflexivity.
+  - destruct (rank_of (src m) * 8 + 3 =? s); [reflexivity|].
+    destruct (rank_of (src m) * 8 =? s); reflexivity.
+Qed.
+
+Lemma side_pawn_m (c:color) (t:N) (d:Z*Z) : t < 64 ->
+  side_pawn q (κ c) (φ t) (δ d) = side_pawn p c t d.
+Proof.
+  intro Ht. unfold side_pawn. rewrite (phi_step S) by exact Ht.
+  destruct (step t d) as [x|]; cbn [option_map]; [|reflexivity]. apply (has_m S p q R).
+Qed.
+
+Lemma ep_apply_m (m:move) : src m < 64 -> dst m < 64 ->
+  ep (apply q (φm m)) = option_map φ (ep (apply p m)).
+Proof.
+  intros Hs Hd. rewrite !ep_apply, is_double_m by assumption.
+  destruct (is_double p m) eqn:Ed; [|reflexivity].
+  cbn [mmove src dst]. rewrite (r_turn _ _ _ R), <- (kap_opp S).
+  rewrite (existsb_perm _ _ _ (Permutation_sym (del_side S))), existsb_map.
+  rewrite (existsb_ext_in (fun x => side_pawn q (κ (opp (turn p))) (φ (dst m)) (δ x))
+                          (side_pawn p (opp (turn p)) (dst m)))
+    by (intros a _; apply side_pawn_m, Hd).
+  destruct (existsb _ side_dirs); [|reflexivity]. cbn [option_map]. f_equal.
+  symmetry. apply (phi_tgt S); try assumption.
+  unfold is_double in Ed. apply andb_prop in Ed. apply N.eqb_eq, Ed.
+Qed.
+
+Lemma Rel_apply (m:move) : src m < 64 -> dst m < 64 ->
+  (is_castle p m = false \/ castle_geom S) ->
+  Rel S (apply p m) (apply q (φm m)).
+Proof.
+  intros Hs Hd HC.
+  assert (src (φm m) < 64) as Hs' by (apply (phi_lt S), Hs).
+  assert (dst (φm m) < 64) as Hd' by (apply (phi_lt S), Hd).
+  constructor.
+  - rewrite apply_length. apply (r_lp _ _ _ R).
+  - rewrite apply_length. apply (r_lq _ _ _ R).
+  - intro s. rewrite !at_apply; try assumption; [|apply (r_lp _ _ _ R)|apply (r_lq _ _ _ R)].
+    apply apply_at_m; assumption.
+  - rewrite !turn_apply, (r_turn _ _ _ R). symmetry. apply kap_opp.
+  - apply ep_apply_m; assumption.
+Qed.
+
+Lemma legal_m :
+  uniq_king p -> CastleRel S p q ->
+  (forall m, In m (pseudo p) -> is_castle p m = false \/ castle_geom S) ->
+  Permutation (legal_moves q) (map φm (legal_moves p)).
+Proof.
+  intros U HC HG. unfold legal_moves.
+  eapply Permutation_trans.
+  - apply Permutation_filter. apply (pseudo_m S p q R HC).
+  - rewrite filter_map_comm.
+    rewrite (filter_ext_in (fun x => negb (in_check (apply q (φm x)) (turn q)))
+                           (fun x => negb (in_check (apply p x) (turn p)))); [apply Permutation_refl|].
+    intros m Hm. destruct (pseudo_facts _ _ Hm) as [Hs [Hd [Hown Hpr]]].
+    rewrite (r_turn _ _ _ R). f_equal.
+    apply (in_check_m S _ _ (Rel_apply m Hs Hd (HG m Hm))).
+    apply uniq_apply; try assumption. apply (r_lp _ _ _ R).
+Qed.
+
+Lemma status_m :
+  uniq_king p -> CastleRel S p q ->
+  (forall m, In m (pseudo p) -> is_castle p m = false \/ castle_geom S) ->
+  status q = status p.
+Proof.
+  intros U HC HG. pose proof (legal_m U HC HG) as H. apply nonempty_perm_map in H.
+  unfold status. destruct (legal_moves q), (legal_moves p); cbn [nonempty] in H; try discriminate.
+  - rewrite (r_turn _ _ _ R), (in_check_m S p q R) by exact U. reflexivity.
+  - reflexivity.
+Qed.
+
+(** two images of the same position with the same castling rights are equal *)
+Lemma Rel_unique (q':pos) : Rel S p q' ->
+  wk q = wk q' -> wq q = wq q' -> bk q = bk q' -> bq q = bq q' -> q = q'.
+Proof.
+  intros R' E1 E2 E3 E4.
+  assert (placement q = placement q') as Ep.
+  { apply (nth_ext _ _ None None).
+    - rewrite (r_lq _ _ _ R), (r_lq _ _ _ R'). reflexivity.
+    - intros n _. pose proof (r_at _ _ _ R (φ (N.of_nat n))) as A.
+      pose proof (r_at _ _ _ R' (φ (N.of_nat n))) as A'.
+      rewrite (phi_inv S) in A, A'. unfold at_ in A, A'. rewrite Nat2N.id in A, A'. congruence. }
+  pose proof (r_turn _ _ _ R) as T. pose proof (r_turn _ _ _ R') as T'.
+  pose proof (r_ep _ _ _ R) as P. pose proof (r_ep _ _ _ R') as P'.
+  apply pos_ext; congruence.
+Qed.
+
+End WithRel2.
+End Generic2.
+
+(** ** well-formedness is preserved by the image and by pseudo-legal moves *)
+Lemma uniq_m (S:sym) (p q:pos) : Rel S p q -> uniq_king p -> uniq_king q.
+Proof.
+  intros R U c s t Hs Ht.
+  rewrite <- (phi_inv S s), <- (kap_inv S c), (has_m S p q R) in Hs.
+  rewrite <- (phi_inv S t), <- (kap_inv S c), (has_m S p q R) in Ht.
+  apply (phi_inj S). apply (U _ _ _ Hs Ht).
+Qed.
+
+Lemma WFpos_m (S:sym) (p q:pos) : Rel S p q -> WFpos p -> WFpos q.
+Proof.
+  intros R W. apply uniq_WFpos; [apply (r_lq _ _ _ R)|].
+  apply (uniq_m S p q R), WFpos_uniq, W.
+Qed.
+
+Lemma WFpos_apply (p:pos) (m:move) : WFpos p -> In m (pseudo p) -> WFpos (apply p m).
+Proof.
+  intros W Hm. destruct (pseudo_facts _ _ Hm) as [Hs [Hd [Hown Hpr]]].
+  pose proof (WFpos_uniq p W) as U. destruct W as [Hl _].
+  apply uniq_WFpos; [rewrite apply_length; exact Hl|].
+  apply uniq_apply; assumption.
+Qed.
